@@ -474,3 +474,149 @@ func unitC11scripted(e common.Env, p *common.Part) {
 		}
 	}
 }
+
+// ---- contexts that end at the k-th consultation (logical crash points of the caller's own context) ----
+
+// unitC11ctx: one node's KeyGen / Sign runs under a context that ends at its k-th consultation (Err / Done call), for every k up
+// to the number of consultations counted in a reference run. Under C11 every call must return and nothing may panic; under C12
+// the same runs are followed by a complete session on the same topic, which must succeed (no residue of the aborted call).
+func unitC11ctx(e common.Env, p *common.Part) {
+	p.Rule = "scripted sessions of real schemes (barrier, silent and loud mode; key generation and signing; N = 3) in which node 1's call runs under a context that ends at its k-th consultation, k = 1..M+1 (M = consultations of a reference run; the other nodes' contexts end 300 ms later by deadline); oracle C11: every call returns within 10 s after all contexts ended, node 1 returns an error whenever its context ended inside the call, nothing panics; oracle C12 (when run under C12): afterwards a complete session on the same topic succeeds at every node and hands every message over exactly once; distinct key = (mode, operation, k); non-trivial when k <= M"
+	p.Assumptions = append(p.Assumptions, "consultation counts vary slightly between runs in loud mode (timers); k beyond the count of a run simply means that run's context never ended")
+	idx := 0
+	for _, mode := range []string{"barrier", "silent", "loud"} {
+		for _, op := range []string{"keygen", "sign"} {
+			ids := []uint16{1, 2, 3}
+			script := backend.Script{Rounds: []uint8{1, 2}, Bcast: true, P2P: true}
+			mk := func(seed int) *rcluster {
+				c := newRCluster(cluster.Config{Map: identityMap(ids...), Barrier: mode == "barrier", Silent: mode == "silent", Threshold: 2, Script: script}, e.Rng("c11ctx", mode, op, seed), simnet.Uniform)
+				for _, u := range ids {
+					c.Schemes[u].SetStoredData([]byte("share-of-x"))
+				}
+				return c
+			}
+			topicOf := func(k int64) string { return fmt.Sprintf("ctx-topic-%d", k) }
+			// one attempt: node 1 under cc, the others under a deadline; returns errors, whether everybody returned, panics
+			attempt := func(c *rcluster, topic string, k int64, othersDeadline time.Duration) (map[uint16]error, bool, []string, *common.CountCtx) {
+				c.NextSession(&script)
+				if mode == "silent" {
+					c.SetPick(tss.DkgTopicName, ids)
+					c.SetPick(topic, ids)
+				}
+				base, cancel := context.WithTimeout(context.Background(), othersDeadline)
+				defer cancel()
+				cc := common.NewCountCtx(base, k)
+				errs := map[uint16]error{}
+				var panics []string
+				var mu sync.Mutex
+				var wg sync.WaitGroup
+				for _, u := range ids {
+					u := u
+					var ctx context.Context = base
+					if u == 1 {
+						ctx = cc
+					}
+					wg.Add(1)
+					go func() {
+						defer wg.Done()
+						defer func() {
+							if x := recover(); x != nil {
+								mu.Lock()
+								panics = append(panics, fmt.Sprintf("call at node %d panicked: %v", u, x))
+								mu.Unlock()
+							}
+						}()
+						var err error
+						if op == "keygen" {
+							_, err = c.Schemes[u].KeyGen(ctx, 3, 2)
+						} else {
+							_, err = c.Schemes[u].Sign(ctx, []byte("digest-0123456789abcdef0123456789"), topic)
+						}
+						mu.Lock()
+						errs[u] = err
+						mu.Unlock()
+					}()
+				}
+				done := make(chan struct{})
+				go func() { wg.Wait(); close(done) }()
+				select {
+				case <-done:
+					return errs, true, panics, cc
+				case <-time.After(othersDeadline + 10*time.Second):
+					return errs, false, panics, cc
+				}
+			}
+			ref := mk(0)
+			_, ok, _, rcc := attempt(ref, topicOf(0), 0, 5*time.Second)
+			M := rcc.Consultations()
+			ref.Stop()
+			if !ok || M == 0 {
+				p.Inconcl(fmt.Sprintf("%s %s: reference run unusable", mode, op))
+				continue
+			}
+			p.Note(fmt.Sprintf("consultations %s %s", mode, op), M)
+			maxK := M + 1
+			if c := int64(e.Pick(40, 400)); maxK > c {
+				maxK = c
+			}
+			for k := int64(1); k <= maxK; k++ {
+				idx++
+				if !e.Mine(idx) || p.ViolationCount() >= 3 {
+					continue
+				}
+				key := fmt.Sprintf("%s %s: node 1's context ends at its consultation %d", mode, op, k)
+				p.Begin(key)
+				c := mk(int(k))
+				errs, ok, panics, cc := attempt(c, topicOf(k), k, 300*time.Millisecond)
+				inside := cc.Ended() && cc.Consultations() >= k
+				p.Case(key, inside)
+				p.Count("ctx_runs", 1)
+				if inside {
+					p.Count("faults_effective", 1)
+				}
+				wit := map[string]interface{}{"mode": mode, "op": op, "k": k}
+				switch {
+				case len(panics) > 0:
+					p.Violate("panic/context-ends-at-consultation", key+": "+panics[0], wit)
+				case !ok:
+					p.Violate("hang/context-ends-at-consultation", key+": a call had not returned 10 s after every context had ended", wit)
+				default:
+					for _, err := range errs {
+						if err != nil {
+							p.Count("error_returns", 1)
+						} else {
+							p.Count("success_returns", 1)
+						}
+					}
+					if e.Property == "C12" && mode != "silent" {
+						// residue test: a complete session on the same topic afterwards (silent mode re-use of a topic is the known finding)
+						c.drain(300 * time.Millisecond)
+						sc := sessCfg{Callers: ids, Sign: op == "sign", Topic: topicOf(k), Digest: []byte("digest-0123456789abcdef0123456789"), Script: script, Timeout: 5 * time.Second}
+						res := c.run(sc)
+						sig, what := "", ""
+						if u, err := allNil(res, ids); err != nil {
+							sig, what = "residue/session-after-aborted-call-failed", fmt.Sprintf("node %d: %v", u, err)
+							if res.Elapsed >= sc.Timeout && res.QuietAtFirstReturn < 2*time.Second {
+								sig = "" // a deadline while things were still moving: not judged here
+								p.Count("unjudged_deadlines", 1)
+							}
+						} else {
+							sig, what = sessionTotality(c, sc, res)
+						}
+						if len(res.Panics) > 0 {
+							sig, what = "residue/panic", res.Panics[0]
+						}
+						p.Count("follow_up_sessions", 1)
+						if sig != "" {
+							p.Violate(sig, key+", then a complete session on the same topic: "+what, wit)
+						}
+					}
+				}
+				c.Stop()
+				if idx%9 == 0 {
+					p.Sample(map[string]interface{}{"case": key, "consultations": cc.Consultations(), "errors": fmt.Sprint(errs)})
+				}
+			}
+		}
+	}
+}
